@@ -1,7 +1,7 @@
 // Package wpc13 generates the cases of property C13 (sorted tables: table.Writer / table.Reader).
 //
 // A case is a strictly increasing key/value set with table options (block size, restart interval, filter,
-// filter base, comparer; NoCompression), written with the real table.NewWriter into a buffer.
+// filter base, comparer; NoCompression, every third table SnappyCompression), written with the real table.NewWriter into a buffer.
 //
 // Handed to the sink as lines for the Lean model driver (protocol: lean/GoLevel/Driver/Table.lean) with the
 // implementation's answer:
@@ -41,6 +41,8 @@ import (
 	"strconv"
 	"strings"
 
+	"github.com/golang/snappy"
+
 	"github.com/syndtr/goleveldb/leveldb/cache"
 	"github.com/syndtr/goleveldb/leveldb/comparer"
 	lerrors "github.com/syndtr/goleveldb/leveldb/errors"
@@ -59,10 +61,13 @@ type Sizes struct {
 	DamageMaxFile int // tables up to this many bytes get the single-byte damage treatment
 	DamageAll     int // … all positions if the checksummed part is at most this long, else DamageSample + block edges
 	DamageSample  int
+	SnappyStreams int // hand-built / mutated snappy block streams decoded by snappy.Decode and by the model
 }
 
 // DefaultSizes: ≥ 600 tables.
-func DefaultSizes() Sizes { return Sizes{Tables: 700, DamageMaxFile: 1500, DamageAll: 220, DamageSample: 40} }
+func DefaultSizes() Sizes {
+	return Sizes{Tables: 700, DamageMaxFile: 1500, DamageAll: 220, DamageSample: 40, SnappyStreams: 1500}
+}
 
 // nilSep orders like bytes.Compare and never shortens a key (driver comparer id "nilsep").
 type nilSep struct{}
@@ -103,6 +108,7 @@ type Case struct {
 	Cmp       string // "bytewise" | "nilsep"
 	Mode      int
 	N         int
+	Snappy    bool // written with opt.SnappyCompression (reader side only is compared with the model)
 	kvs       []kv
 }
 
@@ -113,6 +119,9 @@ func (c *Case) options() *opt.Options {
 		FilterBaseLg:         c.BaseLg,
 		Compression:          opt.NoCompression,
 		Strict:               opt.StrictAll,
+	}
+	if c.Snappy {
+		o.Compression = opt.SnappyCompression
 	}
 	if c.Filter != "none" {
 		o.Filter = filter.NewBloomFilter(c.Bits)
@@ -170,6 +179,8 @@ func Gen(seed int64, index int) *Case {
 		c.Cmp = "nilsep"
 	}
 	c.Mode = r.Intn(10)
+	c.Snappy = index%3 == 2
+	rz := rand.New(rand.NewSource(seed ^ 0x5a5a)) // shapes values of compressed tables only
 	n := 0
 	switch {
 	case index%37 == 0:
@@ -214,6 +225,13 @@ func Gen(seed int64, index int) *Case {
 			}
 		default:
 			v = randBytes(r, r.Intn(30), 0)
+		}
+		if c.Snappy && rz.Intn(2) == 0 { // compressible values: runs (overlapping copies) and repeated patterns
+			pat := randBytes(rz, 1+rz.Intn(7), rz.Intn(2))
+			v = bytes.Repeat(pat, 1+rz.Intn(60))
+			if rz.Intn(3) == 0 {
+				v = append(v, randBytes(rz, rz.Intn(20), 0)...)
+			}
 		}
 		if r.Intn(40) == 0 {
 			k = randBytes(r, c.BlockSize+r.Intn(c.BlockSize), 1) // key bigger than a block
@@ -451,6 +469,19 @@ func parseHandle(b []byte) (off, ln int) {
 	return int(o), int(l)
 }
 
+// rawBlock returns the (decompressed) contents of the block at a handle.
+func rawBlock(file []byte, off, ln int) []byte {
+	payload := file[off : off+ln]
+	if file[off+ln] == 1 {
+		dec, err := snappy.Decode(nil, payload)
+		if err != nil {
+			panic(err)
+		}
+		return dec
+	}
+	return payload
+}
+
 // layout lists data blocks (in index order), filter block, metaindex block, index block.
 func layout(file []byte) (bs []blk, ok bool) {
 	defer func() {
@@ -463,8 +494,8 @@ func layout(file []byte) (bs []blk, ok bool) {
 	ml, n2 := binary.Uvarint(foot[n:])
 	io, n3 := binary.Uvarint(foot[n+n2:])
 	il, _ := binary.Uvarint(foot[n+n2+n3:])
-	ix, ok1 := parseBlock(file[io : io+il])
-	me, ok2 := parseBlock(file[mo : mo+ml])
+	ix, ok1 := parseBlock(rawBlock(file, int(io), int(il)))
+	me, ok2 := parseBlock(rawBlock(file, int(mo), int(ml)))
 	if !ok1 || !ok2 {
 		return nil, false
 	}
@@ -485,6 +516,7 @@ func layout(file []byte) (bs []blk, ok bool) {
 // Stats of a run (also printed by the standalone runner).
 type Stats struct {
 	Tables, MultiBlock, WithFilter, Big, FileBytes, ReadOps, Damaged, DamageOps, Known int
+	Compressed, CompressedBlocks, SnappyStreams, SnappyBad                             int
 }
 
 // Run generates sz.Tables cases.
@@ -492,6 +524,9 @@ func Run(r *rand.Rand, sz Sizes, s *wp.Sink) Stats {
 	var st Stats
 	for i := 0; i < sz.Tables && s.TimeLeft(); i++ {
 		one(r.Int63(), i, sz, s, &st)
+	}
+	for i := 0; i < sz.SnappyStreams && s.TimeLeft(); i++ {
+		snappyStream(rand.New(rand.NewSource(r.Int63())), s, &st)
 	}
 	if st.Known > 0 {
 		s.Note("KNOWN-FINDING C13: on an empty table NewIterator(&util.Range{Start: non-nil, Limit: non-nil}) reports corruption "+
@@ -505,23 +540,29 @@ func one(seed int64, index int, sz Sizes, s *wp.Sink, st *Stats) {
 	c := Gen(seed, index)
 	r := rand.New(rand.NewSource(seed ^ 0x5eed))
 	viol := func(sig, format string, a ...interface{}) {
-		s.Violate("C13/"+sig, fmt.Sprintf("seed=%d bs=%d ri=%d filter=%s lg=%d cmp=%s n=%d: ", c.Seed, c.BlockSize, c.RI, c.Filter, c.BaseLg, c.Cmp, c.N)+
+		s.Violate("C13/"+sig, fmt.Sprintf("seed=%d bs=%d ri=%d filter=%s lg=%d cmp=%s n=%d snappy=%v: ", c.Seed, c.BlockSize, c.RI, c.Filter, c.BaseLg, c.Cmp, c.N, c.Snappy)+
 			fmt.Sprintf(format, a...), c)
 	}
 	file := c.write()
 	st.Tables++
 	st.FileBytes += len(file)
 
-	// 1. file bytes
-	var sb strings.Builder
-	fmt.Fprintf(&sb, "tbl write %d %d %s %d %s", c.BlockSize, c.RI, c.Filter, c.BaseLg, c.Cmp)
-	for _, e := range c.kvs {
-		sb.WriteByte(' ')
-		sb.WriteString(hx(e.k))
-		sb.WriteByte(' ')
-		sb.WriteString(hx(e.v))
+	// 1. file bytes (the writer model covers NoCompression; compressed tables are compared on the reader side only)
+	if !c.Snappy {
+		var sb strings.Builder
+		fmt.Fprintf(&sb, "tbl write %d %d %s %d %s", c.BlockSize, c.RI, c.Filter, c.BaseLg, c.Cmp)
+		for _, e := range c.kvs {
+			sb.WriteByte(' ')
+			sb.WriteString(hx(e.k))
+			sb.WriteByte(' ')
+			sb.WriteString(hx(e.v))
+		}
+		s.Emit(sb.String(), hx(file))
+		s.Count("compression", "none")
+	} else {
+		st.Compressed++
+		s.Count("compression", "snappy")
 	}
-	s.Emit(sb.String(), hx(file))
 
 	// 2. block handles, parsed independently; they must tile the file
 	blks, ok := layout(file)
@@ -543,6 +584,9 @@ func one(seed int64, index int, sz Sizes, s *wp.Sink, st *Stats) {
 	for _, b := range blks {
 		if b.kind == 'd' {
 			nData++
+		}
+		if file[b.off+b.ln] == 1 {
+			st.CompressedBlocks++
 		}
 	}
 	if nData > 1 {
@@ -714,4 +758,115 @@ func one(seed int64, index int, sz Sizes, s *wp.Sink, st *Stats) {
 		st.DamageOps += 4 * len(ops)
 		s.Count("damaged block", string(hb.kind))
 	}
+}
+
+// ---- snappy block streams: snappy.Decode versus the model's decoder (driver line `tbl snappy <hex>`) ----
+
+// snappyStream builds a valid element sequence by hand (literals in every length encoding, copies with 1-, 2- and
+// 4-byte offsets, overlapping copies), or takes snappy.Encode of compressible data, optionally damages it after the
+// length header (or states a wrong length), and emits it with the answer of snappy.Decode.
+func snappyStream(r *rand.Rand, s *wp.Sink, st *Stats) {
+	var body, out []byte
+	kind := "hand-built"
+	if r.Intn(4) == 0 {
+		kind = "encoder"
+		n := r.Intn(3000)
+		for len(out) < n {
+			if r.Intn(2) == 0 {
+				out = append(out, bytes.Repeat(randBytes(r, 1+r.Intn(5), 1), 1+r.Intn(40))...)
+			} else {
+				out = append(out, randBytes(r, r.Intn(30), 0)...)
+			}
+		}
+		enc := snappy.Encode(nil, out)
+		_, hl := binary.Uvarint(enc)
+		body = enc[hl:]
+	} else {
+		for e, ne := 0, 1+r.Intn(12); e < ne; e++ {
+			if len(out) == 0 || r.Intn(3) == 0 {
+				l := 1 + r.Intn(70)
+				if r.Intn(6) == 0 {
+					l = 1 + r.Intn(400)
+				}
+				lit := randBytes(r, l, r.Intn(2))
+				x := l - 1
+				enc := r.Intn(5) // 0: shortest form, 1..4: that many length bytes (if it fits)
+				switch {
+				case enc == 0 && x < 60:
+					body = append(body, byte(x<<2))
+				case enc <= 1 && x < 1<<8:
+					body = append(body, 60<<2, byte(x))
+				case enc <= 2 && x < 1<<16:
+					body = append(body, 61<<2, byte(x), byte(x>>8))
+				case enc <= 3:
+					body = append(body, 62<<2, byte(x), byte(x>>8), byte(x>>16))
+				default:
+					body = append(body, 63<<2, byte(x), byte(x>>8), byte(x>>16), byte(x>>24))
+				}
+				body = append(body, lit...)
+				out = append(out, lit...)
+				continue
+			}
+			off := 1 + r.Intn(len(out))
+			if r.Intn(3) == 0 && len(out) > 8 {
+				off = 1 + r.Intn(8) // short offsets: overlapping copies
+			}
+			var l int
+			switch t := r.Intn(3); {
+			case t == 0 && off < 2048:
+				l = 4 + r.Intn(8)
+				body = append(body, byte(1|(l-4)<<2|(off>>8)<<5), byte(off))
+			case t <= 1:
+				l = 1 + r.Intn(64)
+				body = append(body, byte(2|(l-1)<<2), byte(off), byte(off>>8))
+			default:
+				l = 1 + r.Intn(64)
+				body = append(body, byte(3|(l-1)<<2), byte(off), byte(off>>8), byte(off>>16), byte(off>>24))
+			}
+			for i := 0; i < l; i++ {
+				out = append(out, out[len(out)-off])
+			}
+		}
+	}
+	dlen := len(out)
+	mut := "intact"
+	switch r.Intn(6) {
+	case 0:
+		if len(body) > 0 {
+			mut = "byte altered"
+			body = append([]byte{}, body...)
+			body[r.Intn(len(body))] ^= byte(1 + r.Intn(255))
+		}
+	case 1:
+		mut = "truncated"
+		body = body[:r.Intn(len(body)+1)]
+	case 2:
+		mut = "wrong length"
+		dlen += []int{-1, 1, 100}[r.Intn(3)]
+		if dlen < 0 {
+			dlen = 0
+		}
+	case 3:
+		if r.Intn(3) == 0 {
+			mut = "trailing bytes"
+			body = append(append([]byte{}, body...), randBytes(r, 1+r.Intn(4), 0)...)
+		}
+	}
+	var hdr [10]byte
+	stream := append(hdr[:binary.PutUvarint(hdr[:], uint64(dlen))], body...)
+	want := "corrupt"
+	if dec, err := snappy.Decode(nil, stream); err == nil {
+		want = "ok:" + hx(dec)
+		if mut == "intact" && !bytes.Equal(dec, out) {
+			s.Violate("C13/snappy-roundtrip", "snappy.Decode of a "+kind+" stream is not the intended output", hx(stream))
+		}
+	} else {
+		st.SnappyBad++
+		if mut == "intact" {
+			s.Violate("C13/snappy-roundtrip", "snappy.Decode rejects a valid "+kind+" stream: "+err.Error(), hx(stream))
+		}
+	}
+	s.Emit("tbl snappy "+hx(stream), want)
+	s.Count("snappy stream", kind+", "+mut)
+	st.SnappyStreams++
 }
